@@ -335,4 +335,79 @@ ABANDON = Harness(
     stubs=STUBS_COMMON,
 )
 
-HARNESSES = [SCHED, BURST, ABANDON]
+
+# ------------------------------------------------------------------------------ W-nested
+def nested_params(tier):
+    return [P("wphase", 0, 1), P("hostpub", 0, 1), P("inner_phase", 0, 1), P("gap0", 0, 8), P("arm0", 0, 3)]
+
+
+@guard
+def nested_fn(a, tier):
+    """A component deployed as 'host/outbound' brings up a component tree of its own from inside start(): what THAT tree's (un-aliased)
+    component publishes under the default name is (T,'default') - it releases the waiter for that key and not the one for (T,'outbound')."""
+    wphase, hostpub, inner_phase = pick(a["wphase"], 2), pick(a["hostpub"], 2), pick(a["inner_phase"], 2)
+    tape = DeviationTape([(a["gap0"], a["arm0"])], 8)
+    env = Env()
+    inner_val, host_val = object(), object()
+
+    inner_steps = [("cp",), ("pub", "INNER", inner_val, "default", [T])]
+    inner_env_nodes = [NodeSpec(0, -1, prepare=inner_steps if inner_phase == 0 else [], start=inner_steps if inner_phase == 1 else [])]
+    inner_env = Env()
+    inner_classes = build_classes(inner_env, inner_env_nodes)
+    InnerRoot = inner_classes[0]
+
+    def nested_start(env_, node):
+        async def go():
+            await start_component(InnerRoot, {}, timeout=500)
+            env.ev("nested_started")
+
+        return go()
+
+    host_start = [("call", nested_start)] + ([("cp",), ("pub", "HOST", host_val, "default", [T])] if hostpub else [])
+    wait = [("wait", "w", T, "default")]
+    w = NodeSpec(1, 0, prepare=wait if wphase == 0 else [], start=wait if wphase == 1 else [], alias="waiter")
+    host = NodeSpec(2, 0, prepare=[("cp",)], start=host_start, alias="host/outbound")
+    other = NodeSpec(3, 0, prepare=[], start=[("opt", "o", T, "outbound")], alias="peek") if not hostpub else NodeSpec(
+        3, 0, prepare=[], start=[("wait", "o", T, "outbound")], alias="wait_outbound")
+    nodes = [NodeSpec(0, -1, prepare=[], start=[]), w, host, other]
+    classes = build_classes(env, nodes)
+    out = {}
+
+    async def main():
+        async with Context() as ctx:
+            await start_component(classes[0], {}, timeout=1000)
+            out["names"] = {n: v for n, v in ctx.get_resources(T).items()}
+
+    _, exc, k = run(main, chooser=tape)
+    summary = {"waiter_in": ["prepare", "start"][wphase], "host_also_publishes_its_own_default_named_resource": bool(hostpub),
+               "nested_component_publishes_in": ["prepare", "start"][inner_phase], "schedule": tape.taken}
+    if exc is not None:
+        lost = isinstance(exc, (TimeoutError, symsched.Deadlock))
+        return FAIL("nested:lost-wakeup" if lost else f"nested:startup-failed:{type(exc).__name__}", f"{exc!r} log={env.log}", summary)
+    if env.values.get((1, "w")) is not inner_val:
+        return FAIL("nested:waiter-for-the-default-name-got-the-wrong-object", repr(env.values.get((1, "w"))), summary)
+    exp_names = {"default": inner_val}
+    if hostpub:
+        exp_names["outbound"] = host_val
+        if env.values.get((3, "o")) is not host_val:
+            return FAIL("nested:waiter-for-the-alias-name-released-with-a-foreign-object", repr(env.values.get((3, "o"))), summary)
+    if out["names"] != exp_names:
+        return FAIL("nested:published-names", f"{sorted(out['names'])} expected {sorted(exp_names)}", summary)
+    return OK(summary, True)
+
+
+NESTED = Harness(
+    prop="C06",
+    name="W-nested",
+    fn=nested_fn,
+    params=nested_params,
+    cube=lambda tier: 3,
+    title="a component tree started from inside an aliased component's start(): its publications keep their own names",
+    bound_text=lambda tier: "host 'host/outbound' starts a one-component tree from start() whose component publishes (T, default name) in prepare/start; a sibling waits "
+    "for (T,'default') in prepare/start; optionally the host publishes its own default-named T afterwards and another sibling waits for (T,'outbound'); FIFO with one deviation in 8 decisions",
+    oracle="startup completes; the waiter for 'default' gets the nested component's object, the waiter for 'outbound' only the host's; the context holds exactly those names",
+    outside="deeper nesting",
+    stubs=STUBS_COMMON,
+)
+
+HARNESSES = [SCHED, BURST, ABANDON, NESTED]
